@@ -35,6 +35,15 @@ func VerifPointwiseMontgomery(c, a, b *VerifPoly) {
 	polyPointWiseMontgomery(&pc, &pa, &pb)
 	*c = pc.coeffs
 }
+
+// VerifPointwiseMontgomeryInto is VerifPointwiseMontgomery with a destination
+// that already holds values (the library reuses destination polynomials).
+func VerifPointwiseMontgomeryInto(c, a, b *VerifPoly) {
+	var pc, pa, pb poly
+	pc.coeffs, pa.coeffs, pb.coeffs = *c, *a, *b
+	polyPointWiseMontgomery(&pc, &pa, &pb)
+	*c = pc.coeffs
+}
 func VerifPolyReduce(a *VerifPoly) {
 	p := poly{*a}
 	polyReduce(&p)
